@@ -759,6 +759,173 @@ def cases_perchunk(ctx):
 
 
 # ------------------------------------------------------------------------------------------
+# fixed cases outside the theorems' side conditions (each one is a finding on the real code when it fails)
+# ------------------------------------------------------------------------------------------
+
+TWO_CHUNKS = [[0, 3, [[0, 1, 0, 0], [2, 3, 1, 0]]], [3, 6000, [[5000, 5001, 2, 0], [5002, 5003, 3, 0]]]]
+THREE_CHUNKS = [[0, 10, [[1, 2, 0, 0]]], [10, 20, [[11, 12, 1, 0]]], [20, 30, [[21, 22, 2, 0]]]]
+
+SAME_DIR_CASES = [
+    {"unit": "rechunker_same_dir", "layout": TWO_CHUNKS, "md_comp": "blosc", "md_target": 2, "dest": "parent",
+     "comp": "zstd", "tgt": None, "rechunk": 1},
+]
+MERGE_HOLE_CASES = [
+    {"unit": "merge_hole", "layout": THREE_CHUNKS, "md_comp": "blosc", "md_target": 4, "groups": [[0], [2]],
+     "m": 0, "r": 0, "rechunk_save": 1, "tgt_plugin": 4, "comp_plugin": "blosc", "merge_rechunk": 1, "rechunk_to": 4,
+     "processor": "single_thread"},
+]
+FAULT_CASES = [
+    {"unit": "rechunker_fault", "layout": TWO_CHUNKS, "md_comp": "blosc", "md_target": 2, "parallel": False},
+    {"unit": "rechunker_fault", "layout": TWO_CHUNKS, "md_comp": "blosc", "md_target": 2, "parallel": "thread"},
+]
+
+
+def real_same_dir(case):
+    """strax.rechunker with a dest_directory that resolves to the source directory, replace=False"""
+    layout = unjl(case["layout"])
+    d = newdir()
+    try:
+        _, spath = store_layout(os.path.join(d, "a"), layout, case["md_comp"], case["md_target"])
+        h0 = tree_hash(spath)
+        res = "ok"
+        try:
+            with quiet():
+                strax.rechunker(source_directory=spath, dest_directory=os.path.dirname(spath) if case["dest"] == "parent" else spath,
+                                replace=False, compressor=case["comp"],
+                                target_size_mb=None if case["tgt"] is None else mb(case["tgt"]),
+                                rechunk=bool(case["rechunk"]), progress_bar=True, parallel=False)
+        except Exception as e:  # noqa
+            res = "err %s" % err_code(e)
+        out = "%s src=%s" % (res, show_dir(spath))
+        reason = None
+        if tree_hash(spath) != h0:
+            reason = ("strax.rechunker(replace=False) with a dest_directory that resolves to the source directory "
+                      "removed the source data (%s)" % res)
+        return out, reason
+    finally:
+        shutil.rmtree(d, ignore_errors=True)
+
+
+def line_same_dir(case):
+    return "rechunker_same %d %d %d %d %d %s" % (
+        -1 if case["comp"] is None else COMP[case["comp"]], -1 if case["tgt"] is None else case["tgt"], case["rechunk"],
+        COMP[case["md_comp"]], case["md_target"], enc_layout(unjl(case["layout"]), case["md_target"]))
+
+
+def real_merge_hole(case):
+    """merge_per_chunk_storage with groups that leave out a chunk of the dependency"""
+    layout = unjl(case["layout"])
+    d = newdir()
+    try:
+        src, spath = store_layout(d, layout, case["md_comp"], case["md_target"])
+        dst = mk_dst(case["m"], case["r"], case["rechunk_save"], case["tgt_plugin"], case["comp_plugin"])
+        st = context([d], [src, dst])
+        with quiet():
+            final_key = str(st.key_for(RUN, "dst"))
+            st.make(RUN, "dst", progress_bar=False)
+        fpath = os.path.join(d, final_key)
+        direct = show_dir(fpath)
+        direct_bytes = all_bytes(fpath)
+        shutil.rmtree(fpath)
+        jobs = []
+        for g in case["groups"]:
+            st = context([d], [src, dst])
+            with quiet():
+                st.make(RUN, "dst", chunk_number={"src": list(g)}, progress_bar=False, processor=case["processor"])
+                jobs.append(show_dir(os.path.join(d, str(st.key_for(RUN, "dst", chunk_number={"src": list(g)})))))
+        st = context([d], [src, dst])
+        try:
+            with quiet():
+                st.merge_per_chunk_storage(RUN, "dst", "src", chunk_number_group=[list(g) for g in case["groups"]],
+                                           rechunk=bool(case["merge_rechunk"]), rechunk_to_mb=mb(case["rechunk_to"]))
+            merged = show_dir(fpath)
+        except Exception as e:  # noqa
+            merged = "err %s" % err_code(e)
+        out = "jobs=%s tag=%s merged=%s direct=%s" % ("|".join(jobs), "none" if os.path.exists(fpath) else "tagged", merged, direct)
+        reason = None
+        if os.path.exists(fpath):
+            st = context([d], [src, dst])
+            with quiet():
+                stored = st.is_stored(RUN, "dst")
+                got = st.get_array(RUN, "dst", progress_bar=False).tobytes() if stored else None
+            if stored and got != direct_bytes:
+                reason = ("merge_per_chunk_storage with chunk groups %s (a chunk of the dependency is missing) stored "
+                          "incomplete data under the ordinary key; get_array now returns it" % case["groups"])
+        return out, reason
+    finally:
+        shutil.rmtree(d, ignore_errors=True)
+
+
+def real_fault(case):
+    """a write failure on the last chunk while strax.rechunker(replace=True) rewrites the data"""
+    import time
+    import strax.storage.files as sf
+    layout = unjl(case["layout"])
+    d = newdir()
+    orig = sf.FileSaver._save_chunk_metadata
+    try:
+        _, spath = store_layout(os.path.join(d, "a"), layout, case["md_comp"], case["md_target"])
+        want = all_bytes(spath)
+        md_src = read_md(spath)
+        h0 = tree_hash(spath)
+        last_i = len(layout) - 1
+
+        def failing(self, chunk_info):
+            if chunk_info["chunk_i"] == last_i:
+                if case["parallel"]:
+                    time.sleep(1.0)     # the reader of the mailbox has long finished: deterministic order
+                raise OSError("No space left on device (injected by the C16 check)")
+            return orig(self, chunk_info)
+        sf.FileSaver._save_chunk_metadata = failing
+        res = "returned normally"
+        try:
+            with quiet():
+                strax.rechunker(source_directory=spath, dest_directory=None, replace=True, compressor=None,
+                                target_size_mb=None, rechunk=False, progress_bar=True, parallel=case["parallel"],
+                                max_workers=2, _timeout=30)
+        except Exception as e:  # noqa
+            res = "raised %s" % type(e).__name__
+        finally:
+            sf.FileSaver._save_chunk_metadata = orig
+        out = "%s src=%s" % (res, show_dir(spath))
+        reason = None
+        if tree_hash(spath) != h0:
+            why = check_dir(spath, want, (md_src["start"], md_src["end"]), case["md_comp"])
+            if why:
+                reason = ("a write failure on the last chunk during strax.rechunker(replace=True, parallel=%r): the call %s "
+                          "and the source path now holds neither the complete old nor the complete new data (%s)"
+                          % (case["parallel"], res, why))
+        return out, reason
+    finally:
+        sf.FileSaver._save_chunk_metadata = orig
+        shutil.rmtree(d, ignore_errors=True)
+
+
+def run_fixed(ctx):
+    groups = [("rechunker_same_dir", SAME_DIR_CASES, line_same_dir, real_same_dir),
+              ("merge_hole", MERGE_HOLE_CASES, line_perchunk, real_merge_hole),
+              ("rechunker_fault", FAULT_CASES, None, real_fault)]
+    for unit, cases, line_fn, real_fn in groups:
+        mout = lib.run_model("C16", [line_fn(c) for c in cases]) if line_fn else [None] * len(cases)
+        dist = {}
+        for case, mo in zip(cases, mout):
+            out, reason = real_fn(case)
+            k = "property fails (finding)" if reason else "property holds"
+            dist[k] = dist.get(k, 0) + 1
+            if reason:
+                ctx.violation(unit, reason, {"input": case, "unit": unit, "impl": out, "model": mo})
+            elif mo is not None and out != mo:
+                ctx.violation(unit, "model and implementation disagree on %s (impl %s | model %s)" % (unit, out[:400], mo[:400]),
+                              {"input": "corr:C16/%s" % unit, "case": case, "unit": unit, "impl": out, "model": mo},
+                              no_failing_input=True)
+            if mo is not None and reason and out != mo:
+                ctx.notes.append("%s: the model predicts %s, the implementation gave %s" % (unit, mo[:300], out[:300]))
+        ctx.count(unit, len(cases), len(cases), dist)
+
+
+FIXED_REAL = {"rechunker_same_dir": real_same_dir, "merge_hole": real_merge_hole, "rechunker_fault": real_fault}
+
+# ------------------------------------------------------------------------------------------
 # driver
 # ------------------------------------------------------------------------------------------
 
@@ -874,20 +1041,27 @@ def run(ctx):
         "thread / process parallel modes of strax.rechunker are exercised differentially, not modelled",
         "the per-chunk plugin is a row-wise filter + map with one dependency",
     ]
+    import threading
     shutil.rmtree(TMPROOT, ignore_errors=True)
+    hook = threading.excepthook
+    threading.excepthook = lambda args: None     # failures of worker threads are judged by their effects
     try:
         for unit in UNITS:
             run_unit(ctx, unit)
+        run_fixed(ctx)
     finally:
+        threading.excepthook = hook
         shutil.rmtree(TMPROOT, ignore_errors=True)
 
 
 def replay(ctx, obj):
+    import threading
     r = obj["replay"]
     case = r.get("case") if isinstance(r.get("input"), str) else r.get("input")
     unit = case["unit"]
+    threading.excepthook = lambda args: None
     try:
-        out, reason = UNITS[unit][2](case)
+        out, reason = (FIXED_REAL[unit] if unit in FIXED_REAL else UNITS[unit][2])(case)
     finally:
         shutil.rmtree(TMPROOT, ignore_errors=True)
     print("impl:", out[:1500])
